@@ -3,11 +3,16 @@
 package sched
 
 import (
+	"encoding/json"
 	"errors"
 	"fmt"
+	"os"
 	"path/filepath"
+	"runtime"
 	"sort"
 	"strings"
+	"sync"
+	"time"
 
 	"vsched"
 	"vsched/vsync"
@@ -57,6 +62,108 @@ func (c19) Run(c *core.Ctx) {
 	c19loads(c)
 	c19fanout(c)
 	c19traversal(c)
+	c19freeRunning(c)
+}
+
+// c19freeRunning is the supplementary pass the guidance asks for: the same harness bodies run with real
+// goroutines under the race detector (no controlled scheduler, GOMAXPROCS 8), many repetitions. The deciding
+// step remains the exhaustive exploration above; this pass sees races through code paths the shims do not model.
+func c19freeRunning(c *core.Ctx) {
+	reps := 30
+	if !c.Quick() {
+		reps = 200
+	}
+	stuck := false // after one operation failed to return, leaked goroutines make further timing meaningless
+	run := func(id string, body func()) {
+		c.Do("free/"+id, func() core.Outcome {
+			if stuck {
+				return core.Outcome{Class: "free-skipped", Trivial: true}
+			}
+			NewRaceReports()
+			old := runtime.GOMAXPROCS(8)
+			defer runtime.GOMAXPROCS(old)
+			done := make(chan struct{})
+			go func() {
+				defer close(done)
+				for i := 0; i < reps; i++ {
+					body()
+				}
+			}()
+			// generous horizon (normal: milliseconds to a few seconds), heartbeats keep the parent informed
+			deadline := time.Now().Add(300 * time.Second)
+		waiting:
+			for {
+				select {
+				case <-done:
+					break waiting
+				case <-time.After(time.Second):
+					c.Heartbeat()
+					if time.Now().After(deadline) {
+						stuck = true
+						return core.Outcome{Class: "free-hang", NoRecheck: true, Viol: &core.Violation{Key: "free-running:no-return", Msg: id + ": the operation did not return within 300 s with real goroutines (normal: milliseconds)"}}
+					}
+				}
+			}
+			c.Count("free_running_repetitions", int64(reps))
+			if reps := NewRaceReports(); len(reps) > 0 {
+				return core.Outcome{Class: "free/" + id, NoRecheck: true, Viol: &core.Violation{Key: "data-race@" + RaceSite(reps[0]),
+					Msg: id + ": ThreadSanitizer reports a data race in the free-running pass", Detail: reps[0]}}
+			}
+			return core.Outcome{Class: "free/" + id, Sample: map[string]any{"free_running": id, "repetitions": reps}}
+		})
+	}
+	// fan-out
+	for n := 0; n <= 6; n++ {
+		for _, withErr := range []bool{false, true} {
+			n, withErr := n, withErr
+			run(fmt.Sprintf("fanout/n%d/err%v", n, withErr), func() {
+				base := &types.Project{Name: "p", Services: types.Services{}}
+				for i := 0; i < n; i++ {
+					base.Services[svcNames[i]] = types.ServiceConfig{Name: svcNames[i], Image: "img"}
+				}
+				base.WithServicesTransform(func(name string, s types.ServiceConfig) (types.ServiceConfig, error) {
+					if withErr && name == "b" {
+						return s, errors.New("inj")
+					}
+					s.Image = "x"
+					return s, nil
+				})
+			})
+		}
+	}
+	// traversal
+	for _, s := range c13scenarios(true) {
+		if len(s.roots) > 0 || len(s.errs) > 1 || s.d.n < 3 {
+			continue
+		}
+		s := s
+		run("traversal/"+s.id(), func() {
+			body, _, _, _ := s.setup()
+			body()
+		})
+	}
+	// concurrent loads with real goroutines: 2, 4 and 16 at once
+	inputs := props.CorpusScns()
+	names := sortedNames(inputs)
+	base := filepath.Join(props.Scratch(), "c19free")
+	for _, n := range names {
+		inputs[n].MaterialiseAt(filepath.Join(base, n))
+	}
+	for _, k := range []int{2, 4, 16} {
+		k := k
+		run(fmt.Sprintf("loads/x%d", k), func() {
+			var wg sync.WaitGroup
+			for i := 0; i < k; i++ {
+				n := names[i%len(names)]
+				wg.Add(1)
+				go func() {
+					defer wg.Done()
+					doLoad(inputs[n], filepath.Join(base, n))
+				}()
+			}
+			wg.Wait()
+		})
+	}
 }
 
 // c19traversal: the library's other parallel operation. A subset of C13's scenarios (<= 3 services, no root
@@ -75,64 +182,99 @@ func c19traversal(c *core.Ctx) {
 	}
 }
 
+// digest of one load result (what a cold subprocess is told to expect)
+func (r loadRes) digest() string {
+	return fmt.Sprintf("%s/%x", r.class, core.H64(r.canon+"\x00"+r.yaml+"\x00"+r.json))
+}
+
+// c19loads explores every group of concurrent loads twice: in this worker, whose package state has already
+// served earlier loads (warm), and as the first thing a fresh process ever does (cold: lazily built
+// package-level state - caches, memo tables, once-initialised globals - is first touched concurrently).
 func c19loads(c *core.Ctx) {
 	inputs := props.CorpusScns()
 	names := sortedNames(inputs)
+	coldBase := os.Getenv("C19_COLD_BASE") // set: this process is a cold subprocess and only runs one cold/ case
 	base := filepath.Join(props.Scratch(), "c19")
+	if coldBase != "" {
+		base = coldBase
+	}
 	alone := map[string]loadRes{}
-	for _, n := range names {
-		inputs[n].MaterialiseAt(filepath.Join(base, n))
+	expect := map[string]string{}
+	if coldBase == "" {
+		// the reference results: each input loaded alone, before this process runs anything concurrently
+		for _, n := range names {
+			inputs[n].MaterialiseAt(filepath.Join(base, n))
+			alone[n] = doLoad(inputs[n], filepath.Join(base, n))
+			expect[n] = alone[n].digest()
+		}
+	} else {
+		json.Unmarshal([]byte(os.Getenv("C19_EXPECT")), &expect)
+	}
+	explore := func(id string, ns []string) core.Outcome {
+		NewRaceReports() // drain
+		results := make([]loadRes, len(ns))
+		var fail string
+		// every serial order of the group is one schedule; thread creation order fixed, the explorer permutes;
+		// loads are preemptible at every access to a mutable package-level variable (instrumenter -globals)
+		res := ExploreScenario(len(ns), false, c.Dead, c.Heartbeat, func() (func(), func(*vsched.Sched) string) {
+			body := func() {
+				var wg vsync.WaitGroup
+				wg.Add(len(ns))
+				for i, n := range ns {
+					i, n := i, n
+					vsched.Go(func() {
+						// Quiet: real synchronisation inside yaml / gojsonschema / reflect caches must not order the loads
+						vsched.Quiet(func() { results[i] = doLoad(inputs[n], filepath.Join(base, n)) })
+						wg.Done()
+					})
+				}
+				wg.Wait()
+			}
+			return body, func(*vsched.Sched) string {
+				for i, n := range ns {
+					if d := results[i].digest(); d != expect[n] {
+						fail = fmt.Sprintf("load of %q concurrent with %v differs from the load alone (%s vs %s)", n, ns, d, expect[n])
+						return "result-differs|" + fail
+					}
+				}
+				return ""
+			}
+		})
+		c.Count("states", res.States)
+		c.Count("transitions", res.Transitions)
+		c.Count("traces_validated_against_impl", res.Executions)
+		sample := map[string]any{"concurrent_loads": ns, "schedules": res.Executions, "cold_process": coldBase != ""}
+		if res.FailMsg != "" {
+			key := "concurrent-load:" + strings.SplitN(res.FailMsg, "|", 2)[0]
+			return core.Outcome{Class: id, Sample: sample, Viol: &core.Violation{Key: key, Msg: res.FailMsg}}
+		}
+		if reps := NewRaceReports(); len(reps) > 0 {
+			return core.Outcome{Class: id, Sample: sample, NoRecheck: true, Viol: &core.Violation{Key: "data-race@" + RaceSite(reps[0]),
+				Msg: fmt.Sprintf("concurrent loads of %v: ThreadSanitizer reports a data race", ns), Detail: reps[0]}}
+		}
+		return core.Outcome{Class: id, Sample: sample}
 	}
 	group := func(ns []string) {
-		id := "loads/" + strings.Join(ns, "+")
-		c.Do(id, func() core.Outcome {
+		join := strings.Join(ns, "+")
+		if coldBase == "" {
+			c.Do("loads/"+join, func() core.Outcome { return explore("loads/"+join, ns) })
+		}
+		c.Do("cold/"+join, func() core.Outcome {
+			if coldBase != "" {
+				return explore("cold/"+join, ns)
+			}
+			exp := map[string]string{}
 			for _, n := range ns {
-				if _, ok := alone[n]; !ok {
-					alone[n] = doLoad(inputs[n], filepath.Join(base, n))
-				}
+				exp[n] = expect[n]
 			}
-			NewRaceReports() // drain reports of sequential warm-up (none expected)
-			results := make([]loadRes, len(ns))
-			var fail string
-			// every serial order of the group is one schedule; thread creation order fixed, the explorer permutes
-			// loads are preemptible at every access to a mutable package-level variable (instrumenter -globals)
-			res := ExploreScenario(len(ns), false, c.Dead, c.Heartbeat, func() (func(), func(*vsched.Sched) string) {
-				body := func() {
-					var wg vsync.WaitGroup
-					wg.Add(len(ns))
-					for i, n := range ns {
-						i, n := i, n
-						vsched.Go(func() {
-							results[i] = doLoad(inputs[n], filepath.Join(base, n))
-							wg.Done()
-						})
-					}
-					wg.Wait()
-				}
-				return body, func(*vsched.Sched) string {
-					for i, n := range ns {
-						a := alone[n]
-						if results[i] != a {
-							fail = fmt.Sprintf("load of %q concurrent with %v differs from the load alone (class %s vs %s)", n, ns, results[i].class, a.class)
-							return "result-differs|" + fail
-						}
-					}
-					return ""
-				}
-			})
-			c.Count("states", res.States)
-			c.Count("transitions", res.Transitions)
-			c.Count("traces_validated_against_impl", res.Executions)
-			sample := map[string]any{"concurrent_loads": ns, "schedules": res.Executions}
-			if res.FailMsg != "" {
-				key := "concurrent-load:" + strings.SplitN(res.FailMsg, "|", 2)[0]
-				return core.Outcome{Class: id, Sample: sample, Viol: &core.Violation{Key: key, Msg: res.FailMsg}}
+			eb, _ := json.Marshal(exp)
+			c.Heartbeat()
+			viols, _ := core.RunCase("C19", c.Tier, c.Seed, "cold/"+join, []string{"C19_COLD_BASE=" + base, "C19_EXPECT=" + string(eb)})
+			c.Count("cold_processes", 1)
+			if len(viols) > 0 {
+				return core.Outcome{Class: "cold/" + join, NoRecheck: true, Viol: viols[0]}
 			}
-			if reps := NewRaceReports(); len(reps) > 0 {
-				return core.Outcome{Class: id, Sample: sample, NoRecheck: true, Viol: &core.Violation{Key: "data-race@" + RaceSite(reps[0]),
-					Msg: fmt.Sprintf("concurrent loads of %v: ThreadSanitizer reports a data race", ns), Detail: reps[0]}}
-			}
-			return core.Outcome{Class: id, Sample: sample}
+			return core.Outcome{Class: "cold/" + join, Sample: map[string]any{"concurrent_loads": ns, "cold_process": true}}
 		})
 	}
 	for _, a := range names {
